@@ -24,6 +24,7 @@
     `prereqMet pf p d`                = `pf.on && d.index.isSome && d.index == some p.variation`
 -/
 import LDEval.Proofs.Prereq
+import LDEval.Proofs.AuditEvents
 
 namespace LD.C09
 
@@ -518,6 +519,420 @@ theorem recorder_off :
 
 end Ex
 
+/-! ## Strengthened statements (theorem audit) -/
+
+/-! ### Finding #30 — a global specification of the event list, and `evaluate` equals it
+
+The specification lives in `Proofs/AuditEvents.lean` (`EventSpec.*`); it is a plain recursion over
+the prerequisite graph of the store, without state:
+
+  `edgesLoop res nested env f chain (p :: ps)` =
+    * `[]`                                   if the store has no flag for `p.key`          (missing)
+    * `[]`                                   if the returned flag `pf` is on the path      (cycle)
+    * `nested pf chain`                      if the nested evaluation aborted              (abort)
+    * `nested pf chain ++ ⟨f, p, pf, d⟩ :: (if met then edgesLoop … ps else [])`           (completed with `d`)
+
+  `edges sf (n+1) env f chain` = if `f.on` then the loop over `f.prerequisites` with
+     `res := Spec.evalFlag sf n env`, `nested := edges sf n env`, path `chain ++ [f.key]`, else `[]`.
+
+  `expectedEvents env f` = `(edges segFuel flagFuel env f []).map Edge.event`
+  `expectedLookups env f` = the same recursion for the lookup keys (pre-order, one key per
+     prerequisite reached, including the missing / cyclic / aborted / unmet one that ends a loop). -/
+
+open EventSpec in
+/-- THE EVENT LIST OF `evaluate` IS THE SPECIFICATION, for every environment and every flag (the
+recorder on, a valid context): for each prerequisite of the flag in listed order, first the events
+of the nested evaluation of that prerequisite (recursively), then exactly one event for the
+prerequisite itself carrying its result; the walk ends after the first prerequisite that is unmet
+(whose event is still there), at a missing prerequisite (no event), at a cycle (no event) and at an
+aborted nested evaluation (no event for the aborted flag; what completed inside it is kept).
+For Go: the sequence of `PrerequisiteFlagEventRecorder` calls of one `Evaluate` is exactly this
+list — no call missing, none twice, none in another order. -/
+theorem events_eq_spec (env : Env) (f : Flag) (hctx : env.ctx ≠ .invalid)
+    (hrecorder : env.opts.recorder = true) :
+    (evaluate env f).events = expectedEvents env f := by
+  rw [(evaluate_trace env f hctx).1]
+  simp [evOf, hrecorder, expectedEvents]
+
+open EventSpec in
+/-- The same without hypotheses: nothing for an invalid context, nothing with the recorder off, the
+specified list otherwise. -/
+theorem events_spec_total (env : Env) (f : Flag) :
+    (evaluate env f).events =
+      match env.ctx with
+      | .invalid => []
+      | _ => if env.opts.recorder then expectedEvents env f else [] := by
+  split
+  · rename_i hc; exact (evaluate_invalid_trace env f hc).1
+  · rename_i hc
+    have hctx : env.ctx ≠ .invalid := fun h => hc h
+    rw [(evaluate_trace env f hctx).1]
+    rfl
+
+open EventSpec in
+/-- The keys `evaluate` hands to `GetFeatureFlag` are exactly the specified ones, in call order:
+each listed prerequisite key up to and including the first that is missing, cyclic, aborted or
+unmet, each followed by the lookups of its nested evaluation — with the recorder on or off. -/
+theorem lookups_eq_spec (env : Env) (f : Flag) (hctx : env.ctx ≠ .invalid) :
+    (evaluate env f).flagLookups = expectedLookups env f :=
+  (evaluate_trace env f hctx).2
+
+/-- The hypotheses of `events_eq_spec` hold for the example environment, and there the
+specification (computed by the kernel, independently of `evaluate`) is the three-event post-order
+list of `Ex.all_met`. -/
+example :
+    Ex.env.ctx ≠ .invalid ∧ Ex.env.opts.recorder = true ∧
+    (EventSpec.expectedEvents Ex.env (Ex.mkFlag "top" [⟨"good", 0⟩, ⟨"mid", 0⟩])).map
+        (fun e => (e.targetKey, e.prereqKey, e.prereqVersion, e.excludeFromSummaries)) =
+      [("top", "good", 0, false), ("mid", "leaf", 0, false), ("top", "mid", 7, true)] ∧
+    EventSpec.expectedLookups Ex.env (Ex.mkFlag "top" [⟨"good", 0⟩, ⟨"mid", 0⟩]) =
+      ["good", "mid", "leaf"] := by
+  refine ⟨(by intro h; cases h), by decide, by decide, by decide⟩
+
+/-- The specification stops where it should: an unmet first prerequisite leaves one event and one
+lookup; a missing one leaves a lookup and no event; a rule-matching error in the second
+prerequisite keeps the first event and records nothing for the aborted flag. -/
+example :
+    (EventSpec.expectedEvents Ex.env (Ex.mkFlag "top" [⟨"good", 1⟩, ⟨"mid", 0⟩])).map
+        (fun e => (e.targetKey, e.prereqKey)) = [("top", "good")] ∧
+    EventSpec.expectedLookups Ex.env (Ex.mkFlag "top" [⟨"good", 1⟩, ⟨"mid", 0⟩]) = ["good"] ∧
+    (EventSpec.expectedEvents Ex.env (Ex.mkFlag "top" [⟨"nope", 0⟩, ⟨"good", 0⟩])).length = 0 ∧
+    EventSpec.expectedLookups Ex.env (Ex.mkFlag "top" [⟨"nope", 0⟩, ⟨"good", 0⟩]) = ["nope"] ∧
+    (EventSpec.expectedEvents Ex.env
+        (Ex.mkFlag "top" [⟨"good", 0⟩, ⟨"badRule", 0⟩, ⟨"mid", 0⟩])).map
+        (fun e => (e.targetKey, e.prereqKey)) = [("top", "good")] ∧
+    EventSpec.expectedLookups Ex.env
+        (Ex.mkFlag "top" [⟨"good", 0⟩, ⟨"badRule", 0⟩, ⟨"mid", 0⟩]) = ["good", "badRule"] := by
+  refine ⟨by decide, by decide, by decide, by decide, by decide, by decide⟩
+
+/-! ### Findings #29 and #30 — the whole list, edge by edge -/
+
+/-- A list of edges all satisfying `P` is in one-to-one positional correspondence with its list of
+events. -/
+theorem forall₂_events_edges {P : Edge → Prop} :
+    ∀ L : List Edge, (∀ e ∈ L, P e) →
+      List.Forall₂ (fun ev e => ev = e.event ∧ P e) (L.map Edge.event) L := by
+  intro L
+  induction L with
+  | nil => intro _; exact .nil
+  | cons e L ih =>
+    intro h
+    exact .cons ⟨rfl, h e (List.mem_cons_self ..)⟩ (ih fun x hx => h x (List.mem_cons_of_mem _ hx))
+
+open EventSpec in
+/-- EXACTLY ONE EVENT PER EVALUATED PREREQUISITE EDGE, AND WHAT EACH EVENT CARRIES (whole list).
+The events of `evaluate env top` and the evaluated edges of the specification correspond one to
+one, position by position (`List.Forall₂`: same length, same order), and for each pair:
+* the edge is an edge of the store graph: its dependent flag `e.dep` is `top` or a flag of the
+  store, `e.prereq` is listed in `e.dep.prerequisites`, and `e.pf` is the flag the store returns for
+  the looked-up key `e.prereq.key`;
+* the event's `targetKey` is the key of that dependent flag — the flag whose prerequisite list
+  contained the prerequisite;
+* the event's `prereqKey`, `prereqVersion` and `excludeFromSummaries` are the own key, the version
+  and the exclusion setting of the RETURNED flag `e.pf`;
+* the event's result is the detail `e.d` of a COMPLETED evaluation of `e.pf` on its own, with the
+  experiment bit computed from `e.pf` (see `edge_result_is_standalone` for `evaluate env e.pf`).
+This is as much of "the same context / the prerequisite flag" as the model's `Event` can carry:
+the model has one context per call and the event has no flag pointer, so a Go implementation that
+passed another context, or another flag value agreeing on key, version and exclusion bit, is beyond
+these theorems (harness). -/
+theorem events_one_per_evaluated_edge (env : Env) (top : Flag) (hctx : env.ctx ≠ .invalid)
+    (hrecorder : env.opts.recorder = true) :
+    List.Forall₂
+      (fun ev e =>
+        (ev.targetKey = e.dep.key ∧ ev.prereqKey = e.pf.key ∧
+          ev.prereqVersion = e.pf.fmeta.version ∧
+          ev.excludeFromSummaries = e.pf.excludeFromSummaries ∧
+          ev.result.detail = e.d ∧ ev.result.isExperiment = isExperimentResult e.pf e.d.reason) ∧
+        (e.dep = top ∨ e.dep ∈ env.store.flags.map (·.2)) ∧ e.prereq ∈ e.dep.prerequisites ∧
+        env.store.findFlag e.prereq.key = some e.pf ∧
+        Spec.evalFlag (segFuel env.store) (flagFuel env.store) env e.pf [] = some (e.d, true))
+      (evaluate env top).events (evaluatedEdges env top) := by
+  rw [events_eq_spec env top hctx hrecorder]
+  have h := forall₂_events_edges (P := EdgeOK env top) (evaluatedEdges env top)
+    (edges_ok env top _ (Nat.le_refl _) top [] (.inl rfl))
+  refine List.Forall₂.imp ?_ h
+  rintro ev e ⟨rfl, hok⟩
+  exact ⟨⟨rfl, rfl, rfl, rfl, rfl, rfl⟩, hok⟩
+
+open EventSpec in
+/-- In a store that files every flag under its own key, the whole list of `prereqKey`s is the list
+of the LISTED keys of the evaluated edges, and the whole list of `targetKey`s the list of the keys
+of the flags that listed them. -/
+theorem events_keys_consistent (env : Env) (top : Flag) (hctx : env.ctx ≠ .invalid)
+    (hrecorder : env.opts.recorder = true) (hst : StoreConsistent env.store) :
+    (evaluate env top).events.map (fun ev => (ev.targetKey, ev.prereqKey)) =
+      (evaluatedEdges env top).map (fun e => (e.dep.key, e.prereq.key)) := by
+  rw [events_eq_spec env top hctx hrecorder, expectedEvents, List.map_map]
+  apply List.map_congr_left
+  intro e he
+  have hok := edges_ok env top _ (Nat.le_refl _) top [] (.inl rfl) e he
+  show (e.dep.key, e.pf.key) = (e.dep.key, e.prereq.key)
+  rw [findFlag_key_consistent hst hok.2.2.1]
+
+/-- `StoreConsistent` holds for the example store (it is built with `Store.ofLists`). -/
+example : StoreConsistent Ex.env.store := by
+  constructor
+  · intro e he
+    simp only [Ex.env, Store.ofLists, List.mem_map] at he
+    obtain ⟨f, _, rfl⟩ := he
+    rfl
+  · intro e he
+    simp [Ex.env, Store.ofLists] at he
+
+open EventSpec in
+/-- In particular the number of recorder calls is the number of evaluated edges. -/
+theorem events_length_eq_edges (env : Env) (top : Flag) (hctx : env.ctx ≠ .invalid)
+    (hrecorder : env.opts.recorder = true) :
+    (evaluate env top).events.length = (evaluatedEdges env top).length :=
+  (events_one_per_evaluated_edge env top hctx hrecorder).length_eq
+
+open EventSpec in
+/-- What an evaluated edge's detail has to do with `evaluate`: it is the detail `evaluate env e.pf`
+returns, up to the big-segments status annotation, with the same experiment bit. -/
+theorem edge_result_is_standalone (env : Env) (top : Flag) (hctx : env.ctx ≠ .invalid) :
+    ∀ e ∈ evaluatedEdges env top,
+      (evaluate env e.pf).result.detail =
+        { e.d with reason := { e.d.reason with
+            bigSegmentsStatus := (evaluate env e.pf).result.detail.reason.bigSegmentsStatus } } ∧
+      (evaluate env e.pf).result.isExperiment = e.event.result.isExperiment := by
+  intro e he
+  have hok := edges_ok env top _ (Nat.le_refl _) top [] (.inl rfl) e he
+  exact standalone_result hctx hok.2.2.2
+
+/-- Never more recorder calls than store lookups (every event belongs to a lookup that found a
+flag whose evaluation completed) — for every environment, recorder on or off. -/
+theorem events_length_le_lookups (env : Env) (f : Flag) :
+    (evaluate env f).events.length ≤ (evaluate env f).flagLookups.length := by
+  cases hc : env.ctx with
+  | invalid =>
+    obtain ⟨h1, h2⟩ := EventSpec.evaluate_invalid_trace env f hc
+    rw [h1, h2]; exact Nat.le_refl _
+  | single c =>
+    have hctx : env.ctx ≠ .invalid := by rw [hc]; intro h; cases h
+    obtain ⟨h1, h2⟩ := EventSpec.evaluate_trace env f hctx
+    rw [h1, h2]
+    unfold EventSpec.evOf
+    split
+    · rw [List.length_map]; exact EventSpec.edges_length_le _ env _ f []
+    · exact Nat.zero_le _
+  | multi cs =>
+    have hctx : env.ctx ≠ .invalid := by rw [hc]; intro h; cases h
+    obtain ⟨h1, h2⟩ := EventSpec.evaluate_trace env f hctx
+    rw [h1, h2]
+    unfold EventSpec.evOf
+    split
+    · rw [List.length_map]; exact EventSpec.edges_length_le _ env _ f []
+    · exact Nat.zero_le _
+
+/-! ### Post-order of the whole list -/
+
+open EventSpec in
+/-- DEPTH-FIRST POST-ORDER, for the whole list: wherever the event list of `evaluate env top` is
+split at an event `ev`, that event belongs to an edge `e` of the store graph, and the events
+IMMEDIATELY before it are the complete event list of evaluating the prerequisite flag `e.pf` on its
+own (`<:+` is "is a suffix of"): every prerequisite's event comes directly after all events of its
+own prerequisites, recursively, and before anything of a later sibling. -/
+theorem events_post_order (env : Env) (top : Flag) (hctx : env.ctx ≠ .invalid)
+    (hrecorder : env.opts.recorder = true) (pre post : List Event) (ev : Event)
+    (h : (evaluate env top).events = pre ++ ev :: post) :
+    ∃ e : Edge, ev = e.event ∧ EdgeOK env top e ∧ (evaluate env e.pf).events <:+ pre := by
+  rw [events_eq_spec env top hctx hrecorder] at h
+  unfold expectedEvents at h
+  obtain ⟨l₁, l₂, hl, rfl, h2⟩ := List.map_eq_append_iff.mp h
+  obtain ⟨e, l₃, rfl, rfl, rfl⟩ := List.map_eq_cons_iff.mp h2
+  have hpo := edges_postOrdered env _ (Nat.le_refl _) top [] l₁ e l₃ hl
+  refine ⟨e, rfl, ?_, ?_⟩
+  · apply edges_ok env top _ (Nat.le_refl _) top [] (.inl rfl)
+    show e ∈ evaluatedEdges env top
+    rw [hl]; simp
+  · rw [events_eq_spec env e.pf hctx hrecorder]
+    exact hpo.map Edge.event
+
+/-- `events_post_order` applied: in `Ex.all_met` the list is `[good, leaf, mid]`; splitting at the
+event of `mid` leaves `[good, leaf]` before it, whose suffix `[leaf]` is what `mid` records alone. -/
+example :
+    let o := evaluate Ex.env (Ex.mkFlag "top" [⟨"good", 0⟩, ⟨"mid", 0⟩])
+    Ex.evs o = [("top", "good", some 0, .fallthrough), ("mid", "leaf", some 0, .fallthrough),
+                ("top", "mid", some 0, .fallthrough)] ∧
+    Ex.evs (evaluate Ex.env Ex.mid) = [("mid", "leaf", some 0, .fallthrough)] := by decide
+
+/-! ### The recursion equation of a completed evaluation, in terms of `evaluate` alone -/
+
+/-- The events due for the prerequisites `ps` of `f` when every nested evaluation is replaced by the
+evaluation of the prerequisite flag ON ITS OWN — no fuel, no path: for each listed prerequisite
+whose flag `pf` the store has, everything `evaluate env pf` records, then — iff that evaluation
+completed with detail `d` — the event of `pf` itself, going on to the next prerequisite iff it was
+met.  (The last branch, an aborted `pf`, does not occur below a completed evaluation.) -/
+def standaloneEvents (env : Env) (f : Flag) : List Prereq → List Event
+  | [] => []
+  | p :: ps =>
+    match env.store.findFlag p.key with
+    | none => []
+    | some pf =>
+      match Spec.evalFlag (segFuel env.store) (flagFuel env.store) env pf [] with
+      | some (d, true) =>
+        (evaluate env pf).events ++
+          prereqEvent f pf d :: (if prereqMet pf p d then standaloneEvents env f ps else [])
+      | _ => (evaluate env pf).events
+
+open EventSpec in
+theorem standaloneEvents_eq (env : Env) (f : Flag) (hctx : env.ctx ≠ .invalid)
+    (hrecorder : env.opts.recorder = true) :
+    ∀ ps, (edgesLoop (standaloneRes env) (fun pf _ => evaluatedEdges env pf) env f [] ps).map
+        Edge.event = standaloneEvents env f ps := by
+  intro ps
+  induction ps with
+  | nil => rfl
+  | cons p ps ih =>
+    cases hfind : env.store.findFlag p.key with
+    | none => rw [edgesLoop_missing hfind]; simp [standaloneEvents, hfind]
+    | some pf =>
+      have hc : ([] : List String).contains pf.key = false := rfl
+      have hev : (evaluate env pf).events = (evaluatedEdges env pf).map Edge.event :=
+        events_eq_spec env pf hctx hrecorder
+      cases hr : Spec.evalFlag (segFuel env.store) (flagFuel env.store) env pf [] with
+      | none =>
+        rw [edgesLoop_oof hfind hc (show standaloneRes env pf [] = none from hr)]
+        simp only [standaloneEvents, hfind, hr, hev]
+      | some r =>
+        obtain ⟨d, ok⟩ := r
+        cases ok with
+        | false =>
+          rw [edgesLoop_abort hfind hc (show standaloneRes env pf [] = some (d, false) from hr)]
+          simp only [standaloneEvents, hfind, hr, hev]
+        | true =>
+          rw [edgesLoop_done hfind hc (show standaloneRes env pf [] = some (d, true) from hr)]
+          simp only [standaloneEvents, hfind, hr, List.map_append, List.map_cons, hev]
+          split
+          · rw [ih]; rfl
+          · rfl
+
+/-- THE RECURSION EQUATION ON THE STORE GRAPH, in terms of `evaluate` alone.  If the evaluation of
+`f` completed without abort, what it records is: nothing if `f` is off; otherwise, for each listed
+prerequisite in order, ALL the events of `evaluate env pf` (the prerequisite flag on its own), then
+the one event of `pf` itself, stopping after the first unmet prerequisite and at a missing one.
+No fuel and no path occur in this statement. -/
+theorem events_of_completed (env : Env) (f : Flag) (hctx : env.ctx ≠ .invalid)
+    (hrecorder : env.opts.recorder = true) {d : Detail}
+    (hok : Spec.evalFlag (segFuel env.store) (flagFuel env.store) env f [] = some (d, true)) :
+    (evaluate env f).events =
+      if f.on then standaloneEvents env f f.prerequisites else [] := by
+  rw [events_eq_spec env f hctx hrecorder, EventSpec.expectedEvents,
+    EventSpec.evaluatedEdges_unfold hok]
+  split
+  · exact standaloneEvents_eq env f hctx hrecorder _
+  · rfl
+
+/-- `hok` is satisfiable for a flag with nested prerequisites. -/
+example : (Spec.evalFlag (segFuel Ex.env.store) (flagFuel Ex.env.store) Ex.env
+    (Ex.mkFlag "top" [⟨"good", 0⟩, ⟨"mid", 0⟩]) []).map (·.2) = some true := by decide
+
+/-- A sufficient condition for `hok` that only mentions `evaluate`: the result is not an error. -/
+theorem completed_of_not_error (env : Env) (f : Flag) (hctx : env.ctx ≠ .invalid)
+    (hne : (evaluate env f).result.detail.reason.kind ≠ .error) :
+    ∃ d, Spec.evalFlag (segFuel env.store) (flagFuel env.store) env f [] = some (d, true) := by
+  have href := (evalFlag_refines (segFuel env.store) (flagFuel env.store) env f [] {}
+    (Consistent.empty env)).1
+  generalize hr : evalFlag (segFuel env.store) (flagFuel env.store) env f [] {} = r at href
+  obtain ⟨out, st⟩ := r
+  rcases evaluate_valid f hctx hr with ⟨d, ok, rfl, _, hdet⟩ | ⟨rfl, hoof⟩
+  · cases ok with
+    | true => exact ⟨d, href.symm⟩
+    | false =>
+      exfalso
+      apply hne
+      rw [hdet, withStatus_kind, (abort_is_malformed hr).1]
+      rfl
+  · rw [evaluate_total] at hoof; cases hoof
+
+/-- `hne` is satisfiable (and so is the conclusion's use in `events_of_completed`). -/
+example : (evaluate Ex.env (Ex.mkFlag "top" [⟨"good", 0⟩, ⟨"mid", 0⟩])).result.detail.reason.kind
+    ≠ .error := by decide
+
+/-- `events_of_completed` with the hypothesis stated on `evaluate`. -/
+theorem events_of_not_error (env : Env) (f : Flag) (hctx : env.ctx ≠ .invalid)
+    (hrecorder : env.opts.recorder = true)
+    (hne : (evaluate env f).result.detail.reason.kind ≠ .error) :
+    (evaluate env f).events =
+      if f.on then standaloneEvents env f f.prerequisites else [] := by
+  obtain ⟨d, hok⟩ := completed_of_not_error env f hctx hne
+  exact events_of_completed env f hctx hrecorder hok
+
+/-- The lookups due for the prerequisites `ps` when every nested evaluation is replaced by the
+evaluation of the prerequisite flag on its own: the listed key, then (if the store has a flag for
+it) everything `evaluate env pf` looks up, then the next prerequisite iff this one completed and was
+met. -/
+def standaloneLookups (env : Env) : List Prereq → List String
+  | [] => []
+  | p :: ps =>
+    p.key ::
+      match env.store.findFlag p.key with
+      | none => []
+      | some pf =>
+        (evaluate env pf).flagLookups ++
+          match Spec.evalFlag (segFuel env.store) (flagFuel env.store) env pf [] with
+          | some (d, true) => if prereqMet pf p d then standaloneLookups env ps else []
+          | _ => []
+
+open EventSpec in
+theorem standaloneLookups_eq (env : Env) (hctx : env.ctx ≠ .invalid) :
+    ∀ ps, lookupsLoop (standaloneRes env) (fun pf _ => expectedLookups env pf) env [] ps =
+      standaloneLookups env ps := by
+  intro ps
+  induction ps with
+  | nil => rfl
+  | cons p ps ih =>
+    cases hfind : env.store.findFlag p.key with
+    | none => rw [lookupsLoop_missing hfind]; simp [standaloneLookups, hfind]
+    | some pf =>
+      have hc : ([] : List String).contains pf.key = false := rfl
+      have hl : (evaluate env pf).flagLookups = expectedLookups env pf :=
+        lookups_eq_spec env pf hctx
+      cases hr : Spec.evalFlag (segFuel env.store) (flagFuel env.store) env pf [] with
+      | none =>
+        rw [lookupsLoop_oof hfind hc (show standaloneRes env pf [] = none from hr)]
+        simp only [standaloneLookups, hfind, hr, hl, List.append_nil]
+      | some r =>
+        obtain ⟨d, ok⟩ := r
+        cases ok with
+        | false =>
+          rw [lookupsLoop_abort hfind hc (show standaloneRes env pf [] = some (d, false) from hr)]
+          simp only [standaloneLookups, hfind, hr, hl, List.append_nil]
+        | true =>
+          rw [lookupsLoop_done hfind hc (show standaloneRes env pf [] = some (d, true) from hr)]
+          simp only [standaloneLookups, hfind, hr, hl]
+          split
+          · rw [ih]
+          · rfl
+
+/-- "Lookups are a prefix of the list ending at the first unmet one", globally: a completed
+evaluation of a flag that is on asks the store for each listed prerequisite key in order, each
+followed by all the lookups of that prerequisite's own evaluation, up to and including the first
+prerequisite that is missing or unmet — and for nothing else. -/
+theorem lookups_of_completed (env : Env) (f : Flag) (hctx : env.ctx ≠ .invalid) {d : Detail}
+    (hok : Spec.evalFlag (segFuel env.store) (flagFuel env.store) env f [] = some (d, true)) :
+    (evaluate env f).flagLookups =
+      if f.on then standaloneLookups env f.prerequisites else [] := by
+  rw [lookups_eq_spec env f hctx, (EventSpec.trace_unfold hok).2]
+  split
+  · exact standaloneLookups_eq env hctx _
+  · rfl
+
+/-- What a completed NESTED evaluation records and looks up does not depend on the path it was
+reached by nor on the remaining fuel: it is what the flag records and looks up on its own (general
+observation G2 of the audit, for the two channels of this property). -/
+theorem nested_trace_is_standalone {env : Env} {n : Nat} {pf : Flag} {c : List String} {d : Detail}
+    (hn : n ≤ flagFuel env.store)
+    (h : Spec.evalFlag (segFuel env.store) n env pf c = some (d, true)) :
+    EventSpec.edges (segFuel env.store) n env pf c = EventSpec.evaluatedEdges env pf ∧
+    EventSpec.lookups (segFuel env.store) n env pf c = EventSpec.expectedLookups env pf :=
+  EventSpec.trace_standalone hn h
+
+/-- `h` of `nested_trace_is_standalone` is satisfiable with a non-empty path and less fuel. -/
+example : (Spec.evalFlag (segFuel Ex.env.store) 3 Ex.env Ex.mid ["top"]).map (·.2) = some true := by
+  decide
+
 end LD.C09
 
 #print axioms LD.C09.off_is_lazy
@@ -537,3 +952,17 @@ end LD.C09
 #print axioms LD.C09.rules_record_nothing
 #print axioms LD.C09.Ex.all_met
 #print axioms LD.C09.Ex.rule_error_aborts_all
+#print axioms LD.C09.events_eq_spec
+#print axioms LD.C09.events_spec_total
+#print axioms LD.C09.lookups_eq_spec
+#print axioms LD.C09.events_one_per_evaluated_edge
+#print axioms LD.C09.events_length_eq_edges
+#print axioms LD.C09.edge_result_is_standalone
+#print axioms LD.C09.events_length_le_lookups
+#print axioms LD.C09.events_post_order
+#print axioms LD.C09.events_of_completed
+#print axioms LD.C09.events_of_not_error
+#print axioms LD.C09.completed_of_not_error
+#print axioms LD.C09.lookups_of_completed
+#print axioms LD.C09.nested_trace_is_standalone
+#print axioms LD.C09.events_keys_consistent
